@@ -9,7 +9,11 @@ func init() {
 			"NOT decided: that pivots are increasing in value (the filter compares values), evenness of the partition, exact-once as such.",
 		Assumptions: []string{"GetRangeSplitItems returns at most nways-1 pivots (structural argument recorded in the notes, with its gap for nways=1)"},
 		Run: func(c *Ctx) {
-			c.Do("C10.a", "L4+L5 shard boundary comparators agree", 4, func() { clVisitorBoundary(c); clVisitorShardStart(c); clComparatorRoles(c, map[string]bool{"field:store": true}) })
+			c.Do("C10.a", "L4+L5 shard boundary comparators agree", 4, func() {
+				clVisitorBoundary(c)
+				clVisitorShardStart(c)
+				clComparatorRoles(c, map[string]bool{"field:store": true})
+			})
 			c.Do("C10.b", "L6c errors collected and returned", 5, func() { clVisitorErrors(c) })
 			c.Do("C10.c", "L10 termination shape", 2, func() { clVisitorTermination(c) })
 			c.Do("C10.d", "L2 per-shard iterator pairing and filtering", 8, func() {
